@@ -26,6 +26,9 @@ func runHarnessX(repo, root, file, pkg, test string, env []string, timeout time.
 	}
 	defer os.RemoveAll(work)
 	src := filepath.Join(root, "replaygen", file)
+	if strings.HasPrefix(file, "/") {
+		src = file
+	}
 	dst := filepath.Join(repo, pkg, "zz_verif_replay_test.go")
 	ov := map[string]interface{}{"Replace": map[string]string{dst: src}}
 	data, _ := json.Marshal(ov)
@@ -145,6 +148,9 @@ var kindNames = map[int64]string{1: "bool", 2: "int", 3: "int8", 4: "int16", 5: 
 	13: "float32", 14: "float64", 23: "slice", 24: "string"}
 
 func replayOnRealCode(v *Verifier, o *Obligation, prop string, inputs, model map[string]string, repo, root, work string, seed int) *ReplayResult {
+	if o.Kind == "language" {
+		return replayRegex(o, model, repo, root, work)
+	}
 	switch prop {
 	case "C01":
 		return replayC01(v, o, repo, root, work, seed)
@@ -281,4 +287,42 @@ func searchReplay(repo, root, file, pkg, test string, env, extra []string, how s
 	}
 	searchCache.Store(key, res)
 	return res
+}
+
+// replayRegex: the solver's witness string is run through the real package-level regexp and through
+// the spec pattern compiled by the regexp package; they must disagree for the violation to be confirmed.
+func replayRegex(o *Obligation, model map[string]string, repo, root, work string) *ReplayResult {
+	w, ok := smtStrVal(model["s"])
+	if model == nil || !ok {
+		return &ReplayResult{Confirmed: false, Summary: "no witness string in the solver model"}
+	}
+	i := strings.LastIndex(o.Func, ".")
+	pkg, ident := o.Func[:i], o.Func[i+1:]
+	pkgDir := map[string]string{"valid": "valid", "file": "file", "internal": "valid/internal", "main": "."}[pkg]
+	pkgName := map[string]string{"valid": "valid", "file": "file", "internal": "internal", "main": "main"}[pkg]
+	src := fmt.Sprintf(`package %s
+
+import (
+	"fmt"
+	"regexp"
+	"testing"
+)
+
+func TestVerifReplayRegex(t *testing.T) {
+	w := %q
+	spec := regexp.MustCompile(%q)
+	got, want := %s.MatchString(w), spec.MatchString(w)
+	if got != want {
+		fmt.Printf("REPLAY-CONFIRMED %s.MatchString(%%q) = %%v but the documented language %%q says %%v\n", w, got, spec.String(), want)
+	}
+}
+`, pkgName, w, o.regexSpec, ident, ident)
+	f := filepath.Join(work, sanitize(o.Name)+"_replay_test.go")
+	os.WriteFile(f, []byte(src), 0644)
+	lines, out := runHarness(repo, root, f, pkgDir, "TestVerifReplayRegex", nil, 60*time.Second)
+	detail := fmt.Sprintf("witness: %q\n", w)
+	if len(lines) > 0 {
+		return &ReplayResult{Confirmed: true, Summary: "CONFIRMED: the solver's witness string replayed on the real regexp", Detail: detail + strings.Join(lines, "\n") + "\n--- replay test source ---\n" + src}
+	}
+	return &ReplayResult{Confirmed: false, Summary: "not confirmed", Detail: detail + lastLines(out, 5)}
 }
